@@ -817,6 +817,7 @@ func runC14(c *hx.Ctx) {
 		closeWithLiveClients(o, c, "stored")
 		shutdownDuringTakeover(o, c)
 	}
+	runFlowC14(o, c) // r5_flow_tokens.go, r5_flow_resume.go
 	closeThenConnect(o, c)
 	// no goroutine is left blocked once everything is shut down
 	leaked := 0
